@@ -121,6 +121,12 @@ class C18(Prop):
                 args = [(tokn() if mostly_valid and rng.random() < 0.8 else s()) for _ in range(nargs)]
                 if args and rng.random() < 0.5:
                     args[-1] = args[-1] + ' ' + s()
+                if rng.random() < 0.04:
+                    # long messages (around and beyond the 512 characters of RFC 1459): still exactly one terminated line
+                    n = rng.choice([480, 495, 500, 503, 504, 505, 506, 507, 508, 509, 510, 511, 512, 513, 600, 1500])
+                    long = (rng.choice(['x', 'é', 'ab ']) * n)[:n]
+                    cmd, pfx = rng.choice(['PRIVMSG', 'TOPIC', 'x']), rng.choice([None, 'n!u@h'])
+                    args = [rng.choice(['#c', 'a:b'])] + [long] if ' ' in long or rng.random() < 0.7 else [long, 'tail end']
                 c = {'k': 'irc_str', 'cmd': cmd, 'pfx': pfx, 'args': args}
                 self._decorate(rng, c)
                 cases.append(c)
